@@ -48,8 +48,15 @@ _real = {
 }
 
 
+# temporary files under other naming schemes: `<name>[.<pid>].<12-32 hex | uuid>.tmp` / `…~` next to `<name>`
+_TMP_RE2 = re.compile(r"(^|/)([^/]+?)(?:\.\d+)?[.-](?:[0-9a-f]{8}-[0-9a-f]{4}-[0-9a-f]{4}-[0-9a-f]{4}-[0-9a-f]{12}|[0-9a-f]{12,32})(?:\.tmp|~)$")
+
+
 def canon_name(p):
-    return _TMP_RE.sub("._TMP_", p)
+    """temp names are random: `._<uuid>_X` (the dependency's scheme) and `X.<random hex>.tmp` / `X.<random hex>~`
+    (other schemes a maintainer might choose) are all written `._TMP_X`"""
+    p = _TMP_RE.sub("._TMP_", p)
+    return _TMP_RE2.sub(lambda m: m.group(1) + "._TMP_" + m.group(2), p)
 
 
 class Plan:
